@@ -117,7 +117,8 @@ def gen(rng, tier, index):
         return [{'mode': 'agree', 'n': rng.randrange(0, 9),
                  'source': rng.choice(['list', 'dict']),
                  'mod': rng.randrange(2, 5), 'rem': rng.randrange(0, 3),
-                 'items': rng.random() < 0.4}]
+                 'items': rng.random() < 0.4,
+                 'ret': rng.choice(['bool', 'bool', 'list', 'str', 'int', 'npbool', 'none'])}]
     desc, a = gen_desc(rng)
     reshuffled = desc['stages'][-1]['op'] == 'reshuffle'
     if reshuffled:
@@ -174,6 +175,34 @@ def gen(rng, tier, index):
     return cases
 
 
+class TruthyPred:
+    """the same predicate, answering with a truthy / falsy value that is not a
+    bool (what `lambda ex: ex['tags']` or a numpy comparison returns)"""
+
+    def __init__(self, pred, ret):
+        self.pred, self.ret = pred, ret
+
+    def __call__(self, x):
+        import numpy as _np
+        v = bool(self.pred(x))
+        ids = W.src_ids(x)
+        k = (ids[0] % 3 + 1) if ids else 1
+        if self.ret == 'list':
+            return ['t'] * k if v else []          # ragged containers
+        if self.ret == 'str':
+            return 'yes' * k if v else ''
+        if self.ret == 'int':
+            return k if v else 0
+        if self.ret == 'npbool':
+            return _np.bool_(v)
+        if self.ret == 'none':
+            return object() if v else None
+        return v
+
+    def verdict_of(self, ids):
+        return self.pred.verdict_of(ids)
+
+
 class RaiseIfNot:
     def __init__(self, pred):
         self.pred = pred
@@ -194,6 +223,8 @@ def run_agree(case):
                 return lazy_dataset.new({'k%d' % i: {'src': i} for i in range(n)})
             return lazy_dataset.new([{'src': i} for i in range(n)])
         pred = W.FilterFn('f', case['mod'], case['rem'])
+        if case.get('ret', 'bool') != 'bool':
+            pred = TruthyPred(pred, case['ret'])
         a = src().filter(pred, lazy=True)
         b = src().filter(pred, lazy=False)
         c = src().map(RaiseIfNot(pred)).catch()
